@@ -630,6 +630,8 @@ def rule_closure_raw(ctx, prop):
                 continue
             if not g.locals[0].startswith("full_moon::ast::"):
                 continue
+            if not re.search(r"::(format_|hang_|attempt_)[a-z_]*$", g.path.split("::{closure")[0]):
+                continue        # helpers that post-process an already formatted node (`stmt_remove_leading_newlines`) clone it as is
             try:
                 res = Enumerator(g, max_paths=5000).run()
             except TooManyPaths:
@@ -649,5 +651,46 @@ def rule_closure_raw(ctx, prop):
                               f"{g.path} has a path ({conds or 'unconditional'}) on which it returns a clone of an input node instead of a "
                               f"formatted one: that node is emitted as the input wrote it (quote style, call parentheses, spacing after "
                               f"function names, indentation and line endings of the configuration are not applied to it)", g.loc(), cfg)
-        rep.floor("closures of ordinary formatters returning AST nodes", n, 10, cfg)
+        rep.floor("closures of ordinary formatters returning AST nodes", n, 5, cfg)
+    return rep
+
+
+def rule_pair_source(ctx, prop):
+    """`format_token_expression_sequence(ctx, x.then_token(), x.expression(), ..)`: keyword and operand of one arm"""
+    rep = Report(prop, "R-PAIR", "the (token, expression) pair handed to format_token_expression_sequence is read from one and the same node: "
+                                 "the receivers of the two getters share their origin")
+    for cfg, prog in ctx.programs.items():
+        n = 0
+        for f in prog.fns("stylua_lib"):
+            if not f.path.startswith("formatters::"):
+                continue
+            for b, t in f.calls():
+                if not callee(t).endswith("expression::format_token_expression_sequence") or len(t["args"]) < 3:
+                    continue
+                recv = []
+                for a in t["args"][1:3]:
+                    rs = set()
+                    if not is_const(a):
+                        for r in provenance(f, a, through=None, into_aggs=False):
+                            if r[0] == "call":
+                                t2 = f.blocks[r[2]]["term"]
+                                if t2["args"] and not is_const(t2["args"][0]):
+                                    rs |= {x[:2] if x[0] != "call" else x for x in provenance(f, t2["args"][0], into_aggs=False)}
+                            else:
+                                rs.add(r[:2])
+                    recv.append(rs)
+                if not recv[0] or not recv[1]:
+                    continue
+                n += 1
+                ok = bool(recv[0] & recv[1])
+                rep.inst(f"{f.key} token and expression of one node", {"at": f.loc(t["sp"])}, cfg, ok=ok)
+                if not ok:
+                    rep.violation(f"{f.key} token-and-expression-from-different-nodes",
+                                  f"{f.path} hands format_token_expression_sequence a keyword token read from one node and an expression read "
+                                  f"from another (e.g. the outer `if`'s `then` with an `elseif` arm's expression): both print the same "
+                                  f"keyword, but the comments attached to the arm's own token are dropped and the other token's comments "
+                                  f"are emitted again", f.loc(t["sp"]), cfg)
+        from extract import FEATURES as _F2
+        if "luau" in _F2.get(cfg, ()):
+            rep.floor("format_token_expression_sequence call sites with getter arguments", n, 2, cfg)
     return rep
